@@ -1130,6 +1130,9 @@ def gen_epnp_structured(rng, kind, N):
         return K, [[float(v) for v in p] for p in X], R, t
 
 
+EPNP_ROUTES = ['call', 'ctor', 'ctor-deepcopy', 'call', 'ctor-state_dict', 'ctor-pickle', 'call-overrides-ctor', 'ctor-to-double']
+
+
 def run_epnp(pp, torch, rec):
     """returns the worst pose error (rotation entries, translation relative) over the batch and the
     null-space defect of the true control points"""
@@ -1147,8 +1150,37 @@ def run_epnp(pp, torch, rec):
         a = (pw[0], pix[0], Ks[0])
     else:
         a = (pw.reshape(shape + pw.shape[-2:]), pix.reshape(shape + pix.shape[-2:]), Ks.reshape(shape + (3, 3)))
-    epnp = pp.module.EPnP(refine=rec['refine'])
-    est = epnp(a[0], a[1], a[2]).tensor().reshape(B, 7)
+    # how the solver object gets its camera: per call (documented override), from the constructor, or from the constructor of an
+    # object that was then copied / pickled / restored from a checkpoint (state_dict loaded into a solver built with ANOTHER camera);
+    # chosen from the case itself so that a replay takes the same route
+    route = rec.get('route') or EPNP_ROUTES[(len(rec['pw'][0]) + B + int(bool(rec['refine'])) + int(1000 * abs(rec['K'][0][0][2]))) % len(EPNP_ROUTES)]
+    rec['route'] = route
+    other = a[2].clone()
+    other[..., 0, 0] = other[..., 0, 0] * 1.7 + 11.0
+    other[..., 1, 2] = other[..., 1, 2] - 37.0
+    if route == 'call':
+        epnp, kw = pp.module.EPnP(refine=rec['refine']), dict(intrinsics=a[2])
+    elif route == 'call-overrides-ctor':
+        epnp, kw = pp.module.EPnP(intrinsics=other, refine=rec['refine']), dict(intrinsics=a[2])
+    else:
+        epnp, kw = pp.module.EPnP(intrinsics=a[2].clone(), refine=rec['refine']), {}
+        if route == 'ctor-deepcopy':
+            import copy
+            epnp = copy.deepcopy(epnp)
+        elif route == 'ctor-pickle':
+            import pickle
+            epnp = pickle.loads(pickle.dumps(epnp))
+        elif route == 'ctor-state_dict':
+            import io
+            buf = io.BytesIO()
+            torch.save(epnp.state_dict(), buf)
+            buf.seek(0)
+            fresh = pp.module.EPnP(intrinsics=other, refine=rec['refine'])
+            fresh.load_state_dict(torch.load(buf))
+            epnp = fresh
+        elif route == 'ctor-to-double':
+            epnp = epnp.to(torch.float64)
+    est = epnp(a[0], a[1], **kw).tensor().reshape(B, 7)
     for b in range(B):
         v = [float(x) for x in est[b].tolist()]
         if not all(math.isfinite(x) for x in v):
@@ -1157,9 +1189,9 @@ def run_epnp(pp, torch, rec):
         er = float(np.abs(Re - np.asarray(rec['R'][b])).max())
         et = float(np.abs(np.asarray(v[0:3]) - np.asarray(rec['t'][b])).max()) / (1.0 + float(np.abs(np.asarray(rec['t'][b])).max()))
         if er > 1e-6 or et > 1e-6:
-            worst = ('EPnP(refine=%s) did not recover the pose from exact projections of %d points in front of the camera (%s point set): '
+            worst = ('EPnP(refine=%s) [camera given by route %s] did not recover the pose from exact projections of %d points in front of the camera (%s point set): '
                      'rotation entries off by %.3g, translation off by %.3g (relative), item %d'
-                     % (rec['refine'], len(rec['pw'][b]), rec.get('kind', 'generic'), er, et, b))
+                     % (rec['refine'], route, len(rec['pw'][b]), rec.get('kind', 'generic'), er, et, b))
             break
     if worst:
         return worst
@@ -1209,6 +1241,7 @@ def epnp_block(ctx, pp, torch):
             why = run_epnp(pp, torch, rec)
         except Exception as e:      # noqa
             why = 'EPnP raised %s: %s' % (type(e).__name__, str(e)[:200])
+        ctx.count('epnp:camera-route:' + str(rec.get('route')))
         if why:
             ctx.violation('EPnP.forward:exact-projections:' + ('nullspace' if '_compute_' in why else 'pose-not-recovered'), why, rec)
 
